@@ -1,5 +1,6 @@
 mod driver;
 mod entropy;
+mod faults;
 mod gen;
 mod lint;
 mod minimise;
